@@ -6,48 +6,70 @@
      run{proto,cls,lens,units,mode}  a new connection; lens = message lengths in bytes, units = lengths of the
                                      pieces the decoder drains (equal to lens except HTTP/2: the 24-byte connection
                                      preface is a unit of its own, then the H2 frames); mode = how the listener is
-                                     configured: fixed (one protocol, no matcher) | auto | list
+                                     configured: fixed (one protocol, no matcher) | auto | list;
+                                     peek = 1: inspector-mode transport with a plain-text client (run also names
+                                     the transport: plain | inspector | tls)
      feed{n,got,buffered}            n more bytes were read; got = messages handed to NewStreamDetect/OnReceive
                                      since the previous event: i = which sent message it is (0 = none of them),
                                      ok = content identical to whole delivery; buffered = bytes left in the
                                      read buffer when Dispatch returned (-1: not observable, HTTP/1)
+     pause{got,buffered}             the read deadline expired once (the connection reported OnReadTimeout) and the
+                                     read loop is waiting again; same fields as feed
      err{what}                       the real code rejected / hung on / panicked on this valid input
    The expectation after every chunk is exactly the spec's invariants, evaluated on the recorded values. *)
 EXTENDS Framing, VTrace
 
-VARIABLE units
-tvars == <<vars, units, l>>
+VARIABLES units, tpeek      \* tpeek: the transport peeks one byte (inspector listener, plain-text client)
+tvars == <<vars, units, tpeek, l>>
 
 TraceInit == /\ l = 1 /\ frames = <<>> /\ units = <<>> /\ fed = 0 /\ cons = 0 /\ out = <<>> /\ pc = "read" /\ cuts = <<>> /\ pre = "done"
+             /\ held = 0 /\ lost = 0 /\ pauses = <<>> /\ tpeek = 0
 
 TRun == /\ IsEvent("run")
         /\ frames' = Ev.lens /\ units' = Ev.units
+        /\ tpeek' = IF Has(Ev, "peek") THEN Ev.peek ELSE 0
         /\ fed' = 0 /\ cons' = 0 /\ out' = <<>> /\ pc' = "read" /\ cuts' = <<>> /\ pre' = pre
+        /\ held' = 0 /\ lost' = 0 /\ pauses' = <<>>
 
 Bogus == [start |-> 0 - 1, len |-> 0]
 
+(* n more bytes were sent (n = 0: the read deadline expired instead); in the trace `fed` counts the bytes SENT.
+   exact: the read buffer must account for every byte sent. It is not exact only while the inspector wrapper
+   holds the peeked first byte: after the 1-byte first chunk and before anything else happened. *)
+Step(n, exact) ==
+         LET f2  == fed + n
+             k1  == Complete(frames, f2)
+             got == Ev.got
+             o2  == out \o [j \in 1..Len(got) |->
+                              IF got[j].i \in 1..Len(frames) THEN Range(frames, got[j].i) ELSE Bogus]
+         IN /\ Expect(NoEarlyOK(frames, f2, o2), "frame-before-its-last-byte")
+            /\ Expect(Len(o2) >= k1, "frame-missing")
+            /\ Expect(Len(o2) > k1 \/ Len(o2) < k1 \/ InOrderOnceOK(frames, o2), "order-or-duplicate")
+            /\ Expect(\A j \in 1..Len(got) : got[j].ok, "content-differs")
+            /\ Expect(\/ Ev.buffered = 0 - 1
+                      \/ ConsumedOK(units, f2, f2 - Ev.buffered)
+                      \/ (~exact /\ Ev.buffered = 0),
+                      IF n = 0 THEN "bytes-lost-after-read-timeout" ELSE "buffer-accounting")
+            /\ fed' = f2
+            /\ out' = [i \in 1..k1 |-> Range(frames, i)]      \* resynchronise: judge every step on its own
+            /\ cons' = Off(units, Complete(units, f2))
+            /\ pc' = "read" /\ cuts' = <<>>
+            /\ UNCHANGED <<frames, units, tpeek, pre, held, lost>>
+
 TFeed == /\ IsEvent("feed")
          /\ Ev.n >= 1 /\ fed + Ev.n <= Total(frames)              \* the driver never feeds beyond the stream
-         /\ LET f2  == fed + Ev.n
-                k1  == Complete(frames, f2)
-                got == Ev.got
-                o2  == out \o [j \in 1..Len(got) |->
-                                 IF got[j].i \in 1..Len(frames) THEN Range(frames, got[j].i) ELSE Bogus]
-            IN /\ Expect(NoEarlyOK(frames, f2, o2), "frame-before-its-last-byte")
-               /\ Expect(Len(o2) >= k1, "frame-missing")
-               /\ Expect(Len(o2) > k1 \/ Len(o2) < k1 \/ InOrderOnceOK(frames, o2), "order-or-duplicate")
-               /\ Expect(\A j \in 1..Len(got) : got[j].ok, "content-differs")
-               /\ Expect(Ev.buffered = 0 - 1 \/ ConsumedOK(units, f2, f2 - Ev.buffered), "buffer-accounting")
-               /\ fed' = f2
-               /\ out' = [i \in 1..k1 |-> Range(frames, i)]      \* resynchronise: judge every chunk on its own
-               /\ cons' = Off(units, Complete(units, f2))
-         /\ pc' = "read" /\ cuts' = <<>>
-         /\ UNCHANGED <<frames, units, pre>>
+         /\ Step(Ev.n, ~(tpeek = 1 /\ fed = 0 /\ Ev.n = 1))
+         /\ UNCHANGED pauses
+
+(* the driver let the read deadline expire (and saw the connection's OnReadTimeout): the spec's Timeout action *)
+TPause == /\ IsEvent("pause")
+          /\ Step(0, TRUE)
+          /\ pauses' = Append(pauses, fed)
 
 TErr == /\ IsEvent("err")
         /\ Expect(FALSE, "error-" \o Ev.what)
-        /\ UNCHANGED <<vars, units>>
+        /\ UNCHANGED <<vars, units, tpeek>>
 
-TraceNext == TRun \/ TFeed \/ TErr
+TraceNext == TRun \/ TFeed \/ TPause \/ TErr
 TraceSpec == TraceInit /\ [][TraceNext]_tvars
 ====
